@@ -33,6 +33,19 @@ CORPUS = [
     {"nw": 2, "nx": 4, "steps": [{"name": "RX", "wires": [0], "params": [["lin", 0, 1, 0]]}, {"name": "RY", "wires": [1], "params": [["lin", 1, 1, 0]]},
                                   {"name": "CRX", "wires": [0, 1], "params": [["lin", 2, 1, 0]]}, {"name": "RY", "wires": [1], "params": [["lin", 3, 1, 0]]}],
      "meas": [{"k": "expval", "word": ["Z"], "wires": [0]}]},
+    # the SAME non-parametrised entangler repeated after every rotation layer (three layers): the gate between layers 1 and 2
+    # equals by value (but is not) the gate before layer 1 -> off-block-diagonal Hadamard-test tapes must keep it
+    {"nw": 2, "nx": 3, "steps": [{"name": "RX", "wires": [0], "params": [["lin", 0, 1, 0]]}, {"name": "CNOT", "wires": [0, 1], "params": []},
+                                  {"name": "RY", "wires": [1], "params": [["lin", 1, 1, 0]]}, {"name": "CNOT", "wires": [0, 1], "params": []},
+                                  {"name": "RX", "wires": [0], "params": [["lin", 2, 1, 0]]}],
+     "meas": [{"k": "expval", "word": ["Z", "Z"], "wires": [0, 1]}]},
+    # the same constant-angle rotation (and the same Hadamard) repeated between three trainable layers on one wire
+    {"nw": 1, "nx": 3, "steps": [{"name": "RY", "wires": [0], "params": [["lin", 0, 1, 0]]}, {"name": "RX", "wires": [0], "params": [["fix", 0.7853981633974483]]},
+                                  {"name": "Hadamard", "wires": [0], "params": []},
+                                  {"name": "RZ", "wires": [0], "params": [["lin", 1, 1, 0]]}, {"name": "RX", "wires": [0], "params": [["fix", 0.7853981633974483]]},
+                                  {"name": "Hadamard", "wires": [0], "params": []},
+                                  {"name": "RY", "wires": [0], "params": [["lin", 2, 1, 0]]}],
+     "meas": [{"k": "expval", "word": ["Z"], "wires": [0]}]},
 ]
 
 
@@ -51,7 +64,7 @@ def run(ctx):
     from gradlib import GRAD_HEADER
     ctx.coq_props()
     quick = ctx.tier == "quick"
-    n_circ, n_proof = (7, 5) if quick else (60, 36)
+    n_circ, n_proof = (len(CORPUS) + 3, len(CORPUS) + 1) if quick else (60, 36)      # quick: whole corpus + 1 random circuit proved
     A = ctx.run_impl("c38_impl.py", {"seed": ctx.seed, "n_circ": n_circ, "n_proof": n_proof, "corpus": CORPUS}, timeout=3000)
     obl = [(n, s, "vm_compute. reflexivity.") for n, s, ci in A["obligations"]]
     ci_of = {n: ci for n, s, ci in A["obligations"]}
